@@ -77,6 +77,7 @@ def scenario(exe, shim, root, seed, stats):
         t = rng.choice(base_times)
         fl = 0
         if rng.chance(1, 8): fl |= 8          # justsynced (never scrubbed)
+        if rng.chance(1, 8): fl |= 2          # an outstanding bad mark (the data is fine: a scrub that selects it verifies and clears it)
         infos.append((t, fl))
     oldest = min(i[0] for i in infos if i)
     if not rewrite_info(a, dec, infos, oldest):
